@@ -481,7 +481,7 @@ func runC04Extra(e *core.Env) {
 		kind := Kind(i % 4)
 		for _, c := range cs.list {
 			sc := genCancelScript(r, kind, c.HTTP, "ignore", -1)
-			how := pick(r, "canceled", "deadline", "wrapped-canceled", "wrapped-deadline")
+			how := pick(r, "canceled", "deadline", "wrapped-canceled", "wrapped-deadline", "joined-canceled", "joined-deadline")
 			sc.Ret = Ret{How: how}
 			run, ok, _ := execScript(c, sc, nil)
 			if !ok {
